@@ -43,12 +43,15 @@ VARIABLES
   lastc,   \* the call that has just returned (for the Ret predicates)
   cinfo,   \* where/how the crash happened (hidden by the VIEW: equal images are checked once)
   nf,      \* last sampled value of need_flush_meta() (1/0; -1 = not sampled)
-  viol     \* violations found along this path: sequence of <<property, line, detail>>
+  viol,    \* violations found along this path: sequence of <<property, line, detail>>
+  ram,     \* last sampled in-ram view of the metadata (hook H1), as an image
+  alloced  \* host clusters handed out through the allocator hook and not freed
 
 vars == <<l, sil, ri, vis, dur, pend, fsn, rq, cur, kind, calls, sync, cand,
-          crashed, cimg, kf, lastc, cinfo, nf, viol>>
+          crashed, cimg, kf, lastc, cinfo, nf, viol, ram, alloced>>
 View == <<l, sil, ri, vis, dur, pend, fsn, rq, cur, kind, calls, sync, cand,
-          crashed, cimg, kf, lastc, nf, IF crashed THEN <<>> ELSE viol>>
+          crashed, cimg, kf, lastc, nf, IF crashed THEN <<>> ELSE viol,
+          IF crashed THEN <<>> ELSE ram, alloced>>
 
 R0 == Rec[ri]
 G  == R0.g
@@ -137,6 +140,7 @@ Img0(r) ==
      IF Key(b) \in DOMAIN r.devs[1].img THEN r.devs[1].img[Key(b)] ELSE ZB]
 
 NoCall == [id |-> 0]
+NoRam == [ok |-> FALSE, img |-> <<>>]
 NoCand == [st |-> "none", val |-> <<>>, since |-> <<>>, alone |-> FALSE]
 
 Init ==
@@ -150,13 +154,13 @@ Init ==
     /\ calls = {}
     /\ sync = [have |-> FALSE, val |-> <<>>, later |-> <<>>]
     /\ cand = NoCand
-    /\ crashed = FALSE /\ cimg = <<>> /\ kf = {} /\ lastc = NoCall /\ cinfo = <<>> /\ nf = -1 /\ viol = <<>>
+    /\ crashed = FALSE /\ cimg = <<>> /\ kf = {} /\ lastc = NoCall /\ cinfo = <<>> /\ nf = -1 /\ viol = <<>> /\ ram = NoRam /\ alloced = {}
 
 ---------------------------------------------------------------------------
 (* Backend events *)
 IsEv(e) == ~crashed /\ l <= N /\ Ev.e = e
 Consume == l' = l + 1 /\ sil' = FALSE
-NoRet == lastc' = NoCall /\ cinfo' = cinfo /\ nf' = nf
+NoRet == lastc' = NoCall /\ cinfo' = cinfo /\ nf' = nf /\ ram' = ram /\ alloced' = alloced
 
 Req ==
   /\ IsEv("Req") /\ Consume
@@ -247,7 +251,10 @@ Call ==
                 pre |-> cand.st = "ok",
                 \* the file is in sync with the device: a flush_meta returned Ok
                 \* and nothing has been issued since
-                clean |-> cand.st = "ok" /\ cand.alone /\ calls = {}]
+                clean |-> cand.st = "ok" /\ cand.alone /\ calls = {},
+                \* allocator histories: the in-ram view when the call started
+                ram0 |-> IF ev.op = "alloc" THEN ram ELSE NoRam,
+                pre_alloced |-> {}]
      IN
      /\ calls' = calls \cup {c}
      /\ IF ev.op = "flush" THEN
@@ -392,8 +399,11 @@ Ret ==
                                  IF b \in DOMAIN cand.val THEN cand.since[b]
                                  ELSE IF sync.have THEN sync.later[b] ELSE {}]]
         ELSE sync' = sync
-     /\ lastc' = c
-  /\ UNCHANGED <<ri, vis, dur, pend, fsn, rq, crashed, cimg, cinfo, nf>>
+     /\ lastc' = [c EXCEPT !.pre_alloced = alloced]
+     /\ alloced' = IF c.op = "alloc" /\ ok THEN alloced \cup Blocks(ev.c, ev.n)
+                   ELSE IF c.op = "free" /\ ok THEN alloced \ Blocks(ev.c, ev.n)
+                   ELSE alloced
+  /\ UNCHANGED <<ri, vis, dur, pend, fsn, rq, crashed, cimg, cinfo, nf, ram>>
 
 \* the device is dropped: whatever was not flushed is gone; from here on the
 \* file alone determines the guest content (the specification's own reader)
@@ -406,14 +416,25 @@ Drop ==
                 IF k = "u" /\ R0.back = 1 /\ \E b \in Blocks(gc * G.bpc, G.bpc) : R0.btok[b + 1] # 0
                 THEN "b" ELSE k]
   /\ cand' = NoCand /\ lastc' = NoCall /\ cinfo' = cinfo /\ nf' = -1
+  /\ ram' = NoRam /\ alloced' = {}
   /\ UNCHANGED <<ri, vis, dur, pend, fsn, rq, calls, sync, crashed, cimg, kf>>
 
 SkipKinds == {"Open", "OpenRes", "Note", "FaultPlan", "FaultAll", "FaultsOff",
               "Recovered", "Stuck", "Panic"}
+\* hook H1: the in-ram view of the metadata, as an overlay on the visible file
+RamSample ==
+  /\ IsEv("Ram") /\ Consume
+  /\ ram' = [ok |-> Ev.complete = 1,
+              img |-> [b \in 0 .. R0.maxb - 1 |->
+                         IF Key(b) \in DOMAIN Ev.ov THEN Ev.ov[Key(b)]
+                         ELSE IF b \in DOMAIN vis THEN vis[b] ELSE ZB]]
+  /\ nf' = Ev.nf /\ lastc' = NoCall /\ cinfo' = cinfo /\ alloced' = alloced
+  /\ UNCHANGED <<ri, vis, dur, pend, fsn, rq, cur, kind, calls, sync, cand, crashed, cimg, kf>>
+
 \* the harness sampled need_flush_meta() (recorded when the value changes)
 Flag ==
   /\ IsEv("Flag") /\ Consume
-  /\ nf' = Ev.nf /\ lastc' = NoCall /\ cinfo' = cinfo
+  /\ nf' = Ev.nf /\ lastc' = NoCall /\ cinfo' = cinfo /\ ram' = ram /\ alloced' = alloced
   /\ UNCHANGED <<ri, vis, dur, pend, fsn, rq, cur, kind, calls, sync, cand, crashed, cimg, kf>>
 Skip ==
   /\ ~crashed /\ l <= N /\ Ev.e \in SkipKinds /\ Consume /\ NoRet
@@ -461,6 +482,7 @@ Crash ==
   \* canonical terminal state: equal images are checked once
   /\ l' = 0 /\ pend' = <<>> /\ fsn' = {} /\ rq' = {} /\ calls' = {}
   /\ cand' = NoCand /\ vis' = <<>> /\ dur' = <<>> /\ lastc' = NoCall /\ nf' = nf
+  /\ ram' = NoRam /\ alloced' = alloced
   /\ UNCHANGED <<ri, cur, kind, sync, kf>>
 
 
@@ -519,6 +541,41 @@ Inv_C16 == (Fresh /\ Last.e = "Req") => Last.al = <<0, 0, 0>>
 \* C07a: no deadlock / livelock / panic
 Inv_C07a == (Fresh /\ Last.e \in {"Stuck", "Panic"}) => FALSE
 Inv_Open == (Fresh /\ Last.e = "OpenRes") => Last.res = "ok"
+
+\* C08: in the in-ram view every host cluster has at most one owner, no
+\* cluster is referenced more often than its refcount says, and what the
+\* allocator handed out (through the hook) belongs to nobody else
+RamNow == Fresh /\ Last.e = "Ram" /\ ram.ok
+Inv_C08 == RamNow =>
+  /\ F!TablesOK(ram.img, G)
+  /\ LET RS == F!RefSet(ram.img, G) IN
+     /\ F!NoDoubleRef(RS)
+     /\ F!Undercounted(ram.img, G) = {}
+     /\ \A c \in alloced : F!Refs(RS, c) = 0 /\ F!StoredRc(ram.img, G, c) >= 1
+C08Detail ==
+  IF ~F!TablesOK(ram.img, G) THEN <<"tables">>
+  ELSE LET RS == F!RefSet(ram.img, G) IN
+       <<"dbl", { r \in RS : \E r2 \in RS : r2 # r /\ r2[3] = r[3] /\ ~(r[1] = 6 /\ r2[1] = 6) },
+         "under", F!Undercounted(ram.img, G),
+         "alloced", { c \in alloced : F!Refs(RS, c) # 0 \/ F!StoredRc(ram.img, G, c) < 1 }>>
+
+\* C08: what an allocation returns: a contiguous run, not longer than
+\* requested, cluster aligned, of clusters that were free (refcount 0 and
+\* unreferenced in the in-ram view when the call started) and that nobody
+\* else has been given
+AllocNow == Fresh /\ Last.e = "Ret" /\ lastc.id = Last.id /\ lastc.op = "alloc" /\ Last.res = "ok"
+Inv_C08alloc == AllocNow =>
+  /\ Last.ua = 0 /\ Last.n >= 1 /\ Last.n <= lastc.n
+  /\ Blocks(Last.c, Last.n) \cap lastc.pre_alloced = {}
+  /\ lastc.ram0.ok =>
+       LET RS == F!RefSet(lastc.ram0.img, G) IN
+       \A c \in Blocks(Last.c, Last.n) :
+          F!StoredRc(lastc.ram0.img, G, c) = 0 /\ F!Refs(RS, c) = 0
+
+\* C08: freed clusters are reused: the host file stays below the bound the
+\* scenario states for its working set
+\* (evaluated in the last state of the run, whose next line is End)
+Inv_C08bound == (~crashed /\ l <= N /\ Ev.e = "End" /\ R0.bound > 0) => Ev.flen[1] <= R0.bound
 
 \* C13 / C07b / C17a: the result of the call that has just returned
 RetNow == Fresh /\ Last.e = "Ret" /\ lastc.id = Last.id
@@ -610,6 +667,10 @@ StepViols ==
   \o (IF (Inv_C13b \/ FullRead) THEN <<>> ELSE << <<"C13", l - 1, <<lastc.op, Last.res, Last.n, lastc.cls>>>> >>)
   \o (IF Inv_C01len THEN <<>> ELSE << <<"C01", l - 1, <<"short read", lastc.gb, lastc.n, Last.n>>>> >>)
   \o (IF Inv_C07b THEN <<>> ELSE << <<"C07", l - 1, <<lastc.op, Last.res, Last.msg>>>> >>)
+  \o (IF Inv_C08 THEN <<>> ELSE << <<"C08", l - 1, C08Detail>> >>)
+  \o (IF Inv_C08alloc THEN <<>> ELSE << <<"C08", l - 1, <<"alloc", lastc.n, Last.c, Last.n, Last.ua,
+                                                         Blocks(Last.c, Last.n) \cap lastc.pre_alloced>>>> >>)
+  \o (IF Inv_C08bound THEN <<>> ELSE << <<"C08", l - 1, <<"file grew", Ev.flen, R0.bound>>>> >>)
   \o (IF Inv_C20 THEN <<>> ELSE << <<"C20", l - 1, <<"check", Last.res, F!Leaked(vis, G), F!Undercounted(vis, G)>>>> >>)
 
 \* Audit (a CONSTRAINT, evaluated once per distinct state): progress
@@ -635,7 +696,7 @@ End ==
   /\ UNCHANGED <<ri, vis, dur, pend, fsn, rq, cur, kind, calls, sync, cand, crashed, cimg, kf>>
 
 
-Step == Req \/ Done \/ Call \/ LinOther \/ Ret \/ Drop \/ Skip \/ Flag \/ End \/ Crash
+Step == Req \/ Done \/ Call \/ LinOther \/ Ret \/ Drop \/ Skip \/ Flag \/ RamSample \/ End \/ Crash
 
 \* (the violations of the state being left are appended: evaluating StepViols
 \*  on the current state keeps TLC's caching of the trace constants effective)
